@@ -7,6 +7,7 @@ Exit 0: no failing input found within the budget; 1: failing input found (first 
 3: the harness itself crashed.
 """
 import argparse
+import hashlib
 import json
 import os
 import sys
@@ -33,7 +34,8 @@ def main():
     from rt.core import Failure
     t0 = time.time()
     res = {'property': args.prop, 'seed': args.seed, 'tier': args.tier, 'focus': args.focus, 'cases': 0, 'failures': [],
-           'mabwiser': os.path.dirname(mabwiser.__file__), 'exhausted': True}
+           'mabwiser': os.path.dirname(mabwiser.__file__), 'exhausted': True, 'samples': []}
+    seen = set()
     check = props.CHECKS.get(args.prop)
     rc = 0
     if check is None:
@@ -41,28 +43,39 @@ def main():
     else:
         blocked = set()
         rounds = 0
-        while True:
+        reps = 1 if args.tier != 'thorough' else 12       # thorough: the same enumeration over more random data sets
+        rep = 0
+        while rep < reps:
             rounds += 1
-            env = {'rng': np.random.default_rng(args.seed), 'tier': args.tier, 'focus': args.focus, 'blocked': blocked}
+            env = {'rng': np.random.default_rng(args.seed + 1000 * rep), 'tier': args.tier, 'focus': args.focus,
+                   'blocked': blocked}
             try:
-                for _ in check(env):
+                for c in check(env):
                     res['cases'] += 1
+                    key = hashlib.sha1(json.dumps(c, sort_keys=True, default=str).encode()).hexdigest()
+                    if c and key not in seen:
+                        seen.add(key)
+                        if len(res['samples']) < 3:
+                            res['samples'].append(c)
                     if time.time() - t0 > args.budget:
                         res['exhausted'] = False
                         break
-                break
+                rep += 1
+                if not res['exhausted']:
+                    break
             except Failure as f:
                 res['failures'].append(f.record)
                 rc = 1
                 c = f.record.get('case') or {}
                 key = ((c.get('lp') or [None])[0], (c.get('np') or [None])[0] if c.get('np') else None)
-                if not args.all or key in blocked or rounds > 40 or time.time() - t0 > args.budget:
+                if not args.all or key in blocked or rounds > 60 or time.time() - t0 > args.budget:
                     break
                 blocked.add(key)
             except Exception:       # noqa
                 res['error'] = traceback.format_exc()
                 rc = 3
                 break
+    res['distinct_cases'] = len(seen)
     res['seconds'] = round(time.time() - t0, 2)
     if args.out:
         with open(args.out, 'w') as f:
